@@ -27,7 +27,8 @@ func GenC06(r *RNG) *SrvPlan {
 		resp := &Resp{Status: 200, ErrAt: -1, BodyLen: Pick(r, sizes...), Mode: Pick(r, "buffered", "buffered", "stream-declared", "stream-unknown")}
 		if resp.Mode != "buffered" {
 			if r.Intn(2) == 0 {
-				resp.ReadSizes = []int{1 + r.Intn(30000)}
+				// short reads, but never so short that one body costs more than ~300 frames
+				resp.ReadSizes = []int{max(1+r.Intn(30000), resp.BodyLen/300)}
 			}
 			resp.EOFWithData = r.Intn(2) == 0
 		}
